@@ -1242,7 +1242,7 @@ def first_read(g, name, arg, want):
     raise ValueError(name)
 
 
-def probe_battery(want, depth, order=0, first=None):
+def probe_battery(want, depth, order=0, first=None, lead=None):
     '''Everything that is observed IMMEDIATELY after a growth step, before any other read of the grown object:
     HLoc selections of every selector kind (incl. `:` / omitted / open label slice at the innermost depth),
     Series/Frame .loc[HLoc] on containers indexed by the grown object, and new indices derived from it.'''
@@ -1265,6 +1265,12 @@ def probe_battery(want, depth, order=0, first=None):
     pd = [('derive', k) for k in DERIVE_KINDS]
     pm = [('hloc', k) for k in masks]
     head = [first] if first is not None else []
+    if lead is not None:
+        # one HLoc selection (non-array key) is the VERY FIRST reader after the growth step: nothing -- not even
+        # iter_label, which iterates the leaf indices -- has refreshed a leaf cache before it
+        k = ph[1 + lead % (len(ph) - 1)]
+        ph = [p_ for p_ in ph if p_ is not k]
+        head = [k]
     if order == 0:
         return head + ph + pe + pd[:-1] + pm + pd[-1:]
     if order == 1:
@@ -1551,10 +1557,28 @@ def random_probes(rng, want, kinds):
     if rng.random() < 0.4:
         chosen.append(rng.choice(ex))
     rng.shuffle(chosen)
+    hs = [p_ for p_ in chosen if p_[0] == 'hloc' and not any(s_[0] == 'mask' for s_ in p_[1])]
+    if hs and rng.random() < 0.7:                  # usually a selection leads
+        chosen.remove(hs[0])
+        chosen.insert(0, hs[0])
     if rng.random() < 0.3:
         chosen.append(('derive', 'copy'))
-    head = [rng.choice(first_reads(depth))] if rng.random() < 0.6 else []
-    return head + [('iter_label',)] + chosen
+    r = rng.random()
+    if r < 0.4:
+        return [rng.choice(first_reads(depth)), ('iter_label',)] + chosen
+    if r < 0.8:
+        return chosen + [('iter_label',)]           # an HLoc selection / derivation is the first reader
+    return [('iter_label',)] + chosen
+
+
+def lead_kw(hid, j, frs):
+    '''Who reads the grown object FIRST: a self-refreshing table read, an HLoc selection, or iter_label (rotated).'''
+    v = (hid + 2 * j) % 3
+    if v == 0:
+        return {'first': frs[(hid * 5 + j) % len(frs)]}
+    if v == 1:
+        return {'lead': hid * 3 + j}
+    return {}
 
 
 def short_history_cases(ctx):
@@ -1588,19 +1612,19 @@ def short_history_cases(ctx):
                     new = [l for l in POOLS[kinds[-1]] if jl(l) not in used][0]
                     key = tuple(last[:-1]) + (new,)
                     ref = ref + [key]
-                    script.append(('append', key, 'leaf', probe_battery(ref, depth, order=(hid + j) % 3, first=frs[(hid * 5 + j) % len(frs)])))
+                    script.append(('append', key, 'leaf', probe_battery(ref, depth, order=(hid + j) % 3, **lead_kw(hid, j, frs))))
                 elif a == 'Ab':
                     used = {jl(x[0]) for x in ref}
                     new = [l for l in POOLS[kinds[0]] + ['f', 'g', 'h'] if jl(l) not in used][0]
                     key = (new,) + tuple(last[1:])
                     ref = ref + [key]
-                    script.append(('append', key, 'branch', probe_battery(ref, depth, order=(hid + j) % 3, first=frs[(hid * 5 + j) % len(frs)])))
+                    script.append(('append', key, 'branch', probe_battery(ref, depth, order=(hid + j) % 3, **lead_kw(hid, j, frs))))
                 else:
                     used = {jl(x[0]) for x in ref}
                     new = [l for l in ['p', 'q', 'r', 's'] if l not in used][0]
                     orows = [(new,) + tuple(rows0[0][1:]), (new,) + tuple(rows0[1][1:])]
                     ref = ref + orows
-                    script.append(('extend', orows, 'valid', probe_battery(ref, depth, order=(hid + j) % 3, first=frs[(hid * 5 + j) % len(frs)])))
+                    script.append(('extend', orows, 'valid', probe_battery(ref, depth, order=(hid + j) % 3, **lead_kw(hid, j, frs))))
             ctx.count(f'go:short:{len(w)}')
             yield from go_history(ctx, ctx.rng, rows0, kinds, script, stratum='api:go:short')
 
@@ -2209,8 +2233,97 @@ def auto_int_leaf_cases(ctx):
                        tags={'route': cls_name, 'op': 'auto-int-tuple'}, key=f'autoint-tuple|{cls_name}|{rows_lit(rows)}')
 
 
+def hloc_first_cases(ctx):
+    '''EXHAUSTIVE: append a NEW INNERMOST label to an EXISTING leaf (same parent path) of an IndexHierarchyGO / of the
+    hierarchical columns of a FrameGO, then ONE selection as the VERY FIRST reader (a fresh history per selector): str,
+    int and date leaves; `:` explicit / omitted, labels, lists, open and closed slices, stepped slices, coarser-unit dates.'''
+    import static_frame as sf
+    D = lambda x: np.datetime64(x, 'D')
+    starts = [
+        ('d2-int', None, [('a', 1), ('a', 2), ('b', 1)], [('b', 2), ('b', 3)]),
+        ('d2-str', None, [('a', 'x'), ('a', 'y'), ('b', 'x')], [('b', 'y'), ('b', 'z')]),
+        ('d3-str', None, [('a', 1, 'x'), ('a', 1, 'y'), ('b', 2, 'x')], [('b', 2, 'y'), ('b', 2, 'z')]),
+        ('d3-int', None, [('y', 'p', 10), ('y', 'p', 20), ('z', 'q', 10)], [('z', 'q', 20), ('z', 'q', 30)]),
+        ('d2-date', [sf.Index, sf.IndexDate], [('a', D('2020-01-01')), ('a', D('2020-01-03')), ('b', D('2020-01-02'))], [('b', D('2020-01-05')), ('b', D('2020-02-01'))]),
+    ]
+    for sname, ctors, rows0, adds in starts:
+        depth = len(rows0[0])
+        for n_add in (1, 2):
+            want = list(rows0) + adds[:n_add]
+            n = len(want)
+            last = want[-1]
+            new = last[-1]
+            leaf = [r[-1] for r in want if r[:-1] == last[:-1]]
+            pre = [('one', x) for x in last[:-1]]
+            al = [('all',)] * (depth - 1)
+            keys = [pre, pre + [('all',)], [('one', last[0])], al + [('all',)], al + [('list', [new])], al + [('one', new)], pre + [('one', new)],
+                    pre + [('slice', new, None)], pre + [('slice', None, new)], pre + [('slice', leaf[0], new)], pre + [('list', [new, leaf[0]])],
+                    pre + [('step', new, leaf[0], -1)], pre + [('step', leaf[0], new, 2)], al + [('slice', leaf[0], None)]]
+            coarse = ([str(new)[:7]] if isinstance(new, np.datetime64) else [])
+            for via in ('ihgo', 'framego'):
+                for materialise in (False, True):
+                    if ctx.tier == 'quick' and materialise and via == 'framego':
+                        continue
+                    for ki, key in enumerate(keys + [('coarse', c) for c in coarse]):
+                        g = sf.IndexHierarchyGO.from_labels(rows0, index_constructors=ctors) if ctors else sf.IndexHierarchyGO.from_labels(rows0)
+                        frame = sf.FrameGO.from_records([list(range(len(rows0)))], columns=g) if via == 'framego' else None
+                        if materialise:
+                            _ = (frame.columns if frame is not None else g).values
+                        for i, k_ in enumerate(adds[:n_add]):
+                            if frame is not None:
+                                frame[k_] = [len(rows0) + i]
+                            else:
+                                g.append(k_)
+                        # ---- the selection is the very first reader
+                        is_coarse = isinstance(key, tuple) and key[0] == 'coarse'
+                        if is_coarse:
+                            hk = sf.HLoc(tuple([sel_py(s_) for s_ in pre] + [key[1]]))
+                        else:
+                            hk = hloc_of(key)
+                        if frame is not None:
+                            def run():
+                                r = frame.loc[:, hk]
+                                if isinstance(r, sf.Frame):
+                                    cols = [tuple(canon(x) for x in c) for c in r.columns]
+                                    vals = [int(x) for x in r.iloc[0].values]
+                                    return False, cols, vals
+                                return True, [], [int(np.atleast_1d(r.values)[0])]
+                            try:
+                                single, cols, vals = run()
+                                ps = vals                                   # the payload of column i is i
+                                if cols and [row_lit(c) for c in cols] != [row_lit(want[p]) for p in ps if p < n]:
+                                    ps = ps + [-1]                          # labels and payload torn apart
+                                txt, out = f'(Ok {hres_lit(single, ps)})', (single, ps)
+                            except Exception as e:  # noqa
+                                txt, out = f'(Err {lit.s(lit.err_class(e))})', e
+                            gi = frame.columns
+                            call = "f[key] = ...; f.loc[:, HLoc[...]] as the first read (positions read back from the payload)"
+                        else:
+                            txt, out = res_lit(lambda: canon_iloc(g.loc_to_iloc(hk), n), lambda v: hres_lit(*v))
+                            gi = g
+                            call = 'g.append(key); g.loc_to_iloc(HLoc[...]) as the first read'
+                        ctx.count(f'go:hloc-first:{sname}:{via}')
+                        extra = {'start_rows': [[jl(x) for x in r] for r in rows0], 'appended': [[jl(x) for x in r] for r in adds[:n_add]], 'via': via,
+                                 'table_materialised_before': materialise, 'call': call}
+                        if is_coarse:
+                            expect = [i for i, r in enumerate(want) if r[:-1] == last[:-1] and str(r[-1]).startswith(key[1])]
+                            got = None if isinstance(out, Exception) else sorted(out[1])
+                            yield Case('api:go:hloc_first:coarse', dict(extra, key=[sel_json(s_) for s_ in pre] + [key[1]], observed=txt),
+                                       py_fail=None if got == expect else f'selected {txt}, the tuples under {[jl(x) for x in last[:-1]]} whose date lies in {key[1]} are at {expect}',
+                                       tags={'op': 'hloc-first', 'via': via}, key=f'hfirst-coarse|{sname}|{via}|{materialise}|{n_add}')
+                            continue
+                        tree = tree_of(gi._levels)
+                        c = hloc_case(ctx, gi, tree, want, key, 'go-first-reader', stratum='api:go:hloc_first', obs=(txt, out), extra=extra)
+                        if via == 'framego' and not isinstance(out, Exception) and out[0]:
+                            c.m = None          # a single column comes back as a Series: M's flag describes loc_to_iloc, S decides
+                        if isinstance(new, np.datetime64) and any(s_[0] == 'step' for s_ in key):
+                            pass
+                        yield c
+
+
 def go_cases(ctx):
     rng = ctx.rng
+    yield from hloc_first_cases(ctx)
     yield from auto_int_leaf_cases(ctx)
     yield from route_cases(ctx)
     yield from date_history_cases(ctx)
